@@ -11,6 +11,10 @@ C08.c index entry = what was appended: BasicPacker::add_raw records offset = sel
   self.size by the length appended.
 C08.d pack name = hash of the bytes written: the PackId handed on in the writer pipeline is hash_reader over a clone of
   the very BytesList that FileWriterHandle::process passes to write_bytes; index.id is that id.
+C08.f trailer framing (symbolic lengths): in PackHeader::from_file and check_pack the slice decoded as length field has
+  exactly LENGTH_LEN bytes, the slice handed to decrypt has exactly the length stored in that field on every path
+  (header already read / re-read), and the ranged reads end at the end of the pack.
+C08.g the index entry of a pack is stored as handed over (Indexer::add_with does not mutate its IndexPack).
 C08.e reader side: PackHeader::from_file compares the decoded header's size with the trailer length and its pack_size
   with the listed size before returning Ok; from_binary advances the offset by each blob's length.
 """
@@ -34,7 +38,8 @@ SIZES = {"u8": 1, "u16": 2, "u32": 4, "u64": 8, "rustic_core::id::Id": 32}
 def run(ctx, rep):
     prog = ctx.prog
     for r, tx in (("C08.a", "header codec involution and entry lengths"), ("C08.b", "trailer length = length of the header bytes written"),
-                  ("C08.c", "index entry = what was appended"), ("C08.d", "pack id = hash of the bytes written"), ("C08.e", "reader cross-checks header, trailer and listed size")):
+                  ("C08.c", "index entry = what was appended"), ("C08.d", "pack id = hash of the bytes written"), ("C08.e", "reader cross-checks header, trailer and listed size"),
+                  ("C08.f", "trailer framing lengths agree on every reader path"), ("C08.g", "index entries are stored as handed over")):
         rep.rule(r, tx)
     PF = "rustic_core::repofile::packfile::"
     FB = prog.fn(PF + "HeaderEntry::from_blob")
@@ -204,6 +209,86 @@ def run(ctx, rep):
                 if "length" in sl["fields"]:
                     adv = True
     rep.check("C08.e", "from_binary/offset-advance", adv, where=FBn.loc(), what="from_binary advances the running offset by each blob's length (R-ACCUM)")
+    framing_rule(ctx, rep, "C08.f")
+    index_entry_rule(ctx, rep, "C08.g")
+
+
+def _length_len(prog):
+    cj = prog.consts.get("rustic_core::repofile::packfile::constants::LENGTH_LEN")
+    v = cj["val"] if cj else None
+    if not isinstance(v, int):
+        raise AnchorError("constants::LENGTH_LEN not evaluated")
+    return v
+
+
+def framing_rule(ctx, rep, R, which=("from_file", "check_pack")):
+    """trailer framing, decided with symbolic lengths (engine/symlen.py): the readers cut the pack's tail into exactly
+    [encrypted header of the length stored in the length field][LENGTH_LEN bytes length field] on every path"""
+    import symlen
+    from symlen import Lin
+    prog = ctx.prog
+    LL = _length_len(prog)
+    SINKS = [("lenfield", r"PackHeaderLength::from_binary$", 0, "blen"), ("decrypt", r"DecryptReadBackend(>)?::decrypt$", 1, "blen"),
+             ("read_off", r"ReadBackend(>)?::read_partial$", 4, "ival"), ("read_len", r"ReadBackend(>)?::read_partial$", 5, "ival")]
+    if "from_file" in which:
+        FF = prog.find1(r"^rustic_core::repofile::packfile::PackHeader::from_file$")
+        a = symlen.Analysis(FF, SINKS, arg_names={4: "pack_size"}).run()
+        real = [Lin.sym(n) for bb, n in a.call_syms.items() if n.startswith("to_u32@")]
+        rep.require(R, "from_file/length-field-read", len(real) == 1, where=FF.loc(), what="from_file decodes the header length from the length field once")
+        lf = [v for (n, bb, v) in a.found if n == "lenfield"]
+        rep.check(R, "from_file/length-field-is-LENGTH_LEN-bytes", bool(lf) and all(v == Lin(LL) for v in lf), where=FF.loc(),
+                  what=f"the bytes decoded as the length field are exactly the last LENGTH_LEN = {LL} bytes that were read ({lf})")
+        dec = [v for (n, bb, v) in a.found if n == "decrypt"]
+        okd = bool(dec) and len(real) == 1 and all(v == real[0] for v in dec)
+        rep.check(R, "from_file/decrypt-gets-header-only", okd, where=FF.loc(),
+                  what="on every path (header already read / re-read) the bytes handed to decrypt have exactly the length stored in the length field" if okd else
+                       f"the bytes handed to decrypt have length {dec}, not the header length read from the length field: the trailing length field or stray bytes are included / header bytes are cut (authentication of the header fails, repair-index drops the pack)")
+        offs = {bb: v for (n, bb, v) in a.found if n == "read_off"}
+        lens = {bb: v for (n, bb, v) in a.found if n == "read_len"}
+        ends = sorted([(offs[bb] + lens[bb]) if offs.get(bb) is not None and lens.get(bb) is not None else None for bb in offs], key=repr)
+        ps = Lin.sym("pack_size")
+        oke = bool(ends) and all(e is not None and (e == ps or e == ps - Lin(LL)) for e in ends) and any(e == ps for e in ends)
+        rep.check(R, "from_file/reads-the-tail", oke, where=FF.loc(), what=f"every ranged read ends at the end of the pack (or right before the length field): offset + length = {ends}" if oke else
+                  f"a ranged read of the trailer does not end at pack_size / pack_size - LENGTH_LEN: offset + length = {ends}")
+    if "check_pack" in which:
+        CPK = prog.find1(r"^rustic_core::commands::check::check_pack$")
+        a = symlen.Analysis(CPK, SINKS).run()
+        lf = [v for (n, bb, v) in a.found if n == "lenfield"]
+        rep.check(R, "check_pack/length-field-is-LENGTH_LEN-bytes", bool(lf) and all(v == Lin(LL) for v in lf), where=CPK.loc(),
+                  what=f"check_pack decodes the last LENGTH_LEN = {LL} bytes of the pack as the length field ({lf})")
+        hdr = [Lin.sym(n) for bb, n in a.call_syms.items() if n.startswith("size@")]
+        dec = [v for (n, bb, v) in sorted(a.found, key=lambda f: f[1]) if n == "decrypt"]
+        okh = len(dec) >= 2 and len(hdr) >= 1 and dec[0] in hdr
+        rep.check(R, "check_pack/header-slice", okh, where=CPK.loc(), what="the header handed to decrypt is exactly the header length computed from the index entry (compared with the length field before)" if okh else
+                  f"check_pack hands decrypt a header slice of length {dec[:1]}, not the computed header length")
+        okb = len(dec) >= 2 and all(v is not None and set(v.t) == {"field:location.length"} and v.c == 0 for v in dec[1:])
+        rep.check(R, "check_pack/blob-slices", okb, where=CPK.loc(), what="every blob handed to decrypt is cut with exactly its indexed length")
+
+
+def index_entry_rule(ctx, rep, R):
+    """the pack's index entry is recorded as it was handed over: Indexer::add_with passes its `pack` argument to
+    IndexFile::add without mutating it (dropping 'already seen' blobs from the entry makes index and pack header
+    disagree: offset gaps, wrong computed pack size)"""
+    prog = ctx.prog
+    AW = prog.find1(r"^rustic_core::index::indexer::Indexer::<BE>::add_with$")
+    adds = [(bb, t) for bb, t in AW.calls() if "callee" in t and callee(t).endswith("repofile::indexfile::IndexFile::add")]
+    rep.require(R, "add_with/records", len(adds) == 1, where=AW.loc(), what="add_with records the pack in the index file being built")
+    if len(adds) != 1:
+        return
+    bb, t = adds[0]
+    root = flow.base_local(AW, op_place(t["args"][1])) if op_place(t["args"][1]) else None
+    okroot = root == 2
+    muts = []
+    fam = [AW]
+    for bi, blk in enumerate(AW.blocks):
+        for s_ in blk["s"]:
+            if s_[0] == "=" and s_[2][0] == "refmut" and s_[2][1][0] == 2:
+                muts.append(where(AW, bi))
+            if s_[0] == "=" and s_[1][0] == 2 and len(s_[1]) > 1:
+                muts.append(where(AW, bi))
+    rep.check(R, "add_with/entry-unmodified", okroot and not muts, where=where(AW, bb),
+              what="the IndexPack handed to add_with is stored unmodified" if okroot and not muts else
+                   f"add_with modifies the pack's index entry before storing it (mutable access at {sorted(set(muts))}): the index no longer lists exactly the pack's blobs")
 
 
 def _agg_fields(prog, adt):
